@@ -128,9 +128,11 @@ class AndersonCD(BaseSolver):
             if stop_crit <= self.tol:
                 break
             # 1) select features : all unpenalized, + 2 * (nnz and penalized)
+            # unpenalized features are always included, whether or not their coefficient
+            # is currently 0: count the penalized part of the support only
+            n_supp_pen = (penalty.generalized_support(w[:n_features]) & pen).sum()
             ws_size = max(min(self.p0 + n_unpen, n_features),
-                          min(2 * penalty.generalized_support(w[:n_features]).sum() -
-                              n_unpen, n_features))
+                          min(2 * n_supp_pen + n_unpen, n_features))
 
             opt[unpen] = np.inf  # always include unpenalized features
             opt[penalty.generalized_support(w[:n_features])] = np.inf
